@@ -123,3 +123,13 @@ func init() {
 		ruleGRDrmw(w, r, lr)
 	})
 }
+
+func init() {
+	register("C16", "authentication and role/namespace checks cannot be bypassed", func(w *World, r *Report) {
+		ruleWEB3(w, r)
+		ruleSIBroles(w, r)
+		ruleWEBauth(w, r)
+		ruleWEB4(w, r)
+		ruleJRN12(w, r, func(sc sinkCall) bool { return relPkg(sc.fi.Obj) == "pkg/auth" || relPkg(sc.fi.Obj) == "internal/server" })
+	})
+}
